@@ -123,6 +123,11 @@ CONSUMERS = {
     "nested-fibers-resume": "(defn f [n] (if (= n 0) 0 (resume (fiber/new (fn [] (f (- n 1))))))) (f (min D 200000))",
     "nested-try": "(defn f [n] (if (= n 0) (error :bottom) (try (f (- n 1)) ([e] (error e))))) (f (min D 100000))",
     "tail-calls-constant-stack": "(defn lp [n acc] (if (= n 0) acc (lp (- n 1) (+ acc 1)))) (fiber/setmaxstack (fiber/current) 2000) (assert (= (* 50 D) (lp (* 50 D) 0)))",
+    "tail-apply-in-if": "(defn lp [n acc] (if (= n 0) acc (apply lp [(- n 1) (+ acc 1)]))) (fiber/setmaxstack (fiber/current) 2000) (assert (= (* 50 D) (lp (* 50 D) 0)))",
+    "tail-apply-in-cond-let-do": "(defn lp [n acc] (cond (= n 0) acc (odd? n) (let [m (- n 1)] (apply lp m [(+ acc 1)])) (do nil (apply lp [(- n 1) (+ acc 1)])))) (fiber/setmaxstack (fiber/current) 2000) (assert (= (* 50 D) (lp (* 50 D) 0)))",
+    "tail-splice-call-in-when": "(defn lp [n acc] (if (= n 0) acc (when true (lp ;[(- n 1) (+ acc 1)])))) (fiber/setmaxstack (fiber/current) 2000) (assert (= (* 50 D) (lp (* 50 D) 0)))",
+    "tail-call-in-case-and-or": "(defn lp [n acc] (case n 0 acc (or false (and true (lp (- n 1) (+ acc 1)))))) (fiber/setmaxstack (fiber/current) 2000) (assert (= (* 50 D) (lp (* 50 D) 0)))",
+    "tail-call-in-try-free-nesting": "(defn lp [n acc] (if (= n 0) acc (do (def k 1) (let [a (+ acc k)] (if (> a -1) (lp (- n 1) a) :never))))) (fiber/setmaxstack (fiber/current) 2000) (assert (= (* 50 D) (lp (* 50 D) 0)))",
     "mutual-tail-calls": "(var ev? nil) (defn od? [n] (if (= n 0) false (ev? (- n 1)))) (set ev? (fn [n] (if (= n 0) true (od? (- n 1))))) (fiber/setmaxstack (fiber/current) 2000) (ev? (* 20 D))",
     "deep-sort-comparator": "(sort (seq [i :range [0 (min D 20000)]] (- i)))",
     "nested-dyns": "(defn f [n] (if (= n 0) (dyn :x) (with-dyns [:x n] (f (- n 1))))) (f (min D 50000))",
@@ -173,6 +178,10 @@ def run(ctx):
             signame = signal.Signals(res.sig).name
             band = "at-guard" if dep <= 2100 else ("10^4" if dep <= 20000 else ">=10^5")
             ctx.violation("crash:%s:%s:%s" % (name, signame, band), "%s at depth %d died with %s" % (name, dep, signame), files)
+            return
+        if last.startswith("CAUGHT") and name.startswith(("tail-", "mutual-tail")):
+            # "tail calls of any depth run in constant stack space": an error (stack overflow under the tiny fiber stack) is a violation here
+            ctx.violation("tail-call-grows-stack:%s" % name, "%s at depth %d raised: %s" % (name, dep, last[:160]), files)
             return
         if last.startswith("DONE") or last.startswith("CAUGHT"):
             ctx.count("done" if last.startswith("DONE") else "caught")
